@@ -14,7 +14,7 @@ import (
 )
 
 func isSyncPoolMethod(c *ssa.CallCommon, name string) bool {
-	cal := c.StaticCallee()
+	cal := model.Unthunk(c.StaticCallee())
 	if cal == nil || cal.Name() != name || cal.Pkg == nil || cal.Pkg.Pkg.Path() != "sync" {
 		return false
 	}
